@@ -126,6 +126,8 @@ pub enum Cop {
     Drop { h: usize },
     MkJoin { j: usize, h: usize },
     AwaitJoin { j: usize },
+    /// poll the join future once and leave it pending (corpus only: reproduces finding F6)
+    PollJoin { j: usize },
     DropJoin { j: usize },
     Consume { h: usize },
     Detach { x: usize, h: usize },
@@ -165,4 +167,8 @@ pub struct Case {
     pub horizon_ms: u64,
     /// specs of the two service types (what `Default::default()` produces)
     pub svc: Vec<Spec>,
+    /// corpus only: do not skip an await of an address that was already awaited to completion
+    /// through `&mut` (reproduces finding F9)
+    #[serde(default, skip_serializing_if = "std::ops::Not::not")]
+    pub allow_respent: bool,
 }
